@@ -283,6 +283,12 @@ def run_case(spec, ctx):
             q2, u2, t2 = np.asarray(second.q), np.asarray(second.u), np.asarray(second.t)
             m = min(len(t2), len(tF) - k)
             # the continued run covers the remaining instants of the uninterrupted one (same times, same number of them)
+            if len(t2) < len(tF) - k and np.abs(t2[:m] - tF[k:k + m]).max() <= 1e-9:
+                # the continued run was cut short by the solver itself (a non-convergence it announces: the subject of C20 / C21);
+                # found by the seed sweep: BackwardEuler, ball scene, last step of the continued run
+                ctx.undecided(f"continued run returned only {len(t2)} of {len(tF) - k} remaining instants (truncated by the solver)")
+                ctx.cls("restart:continued_run_truncated_by_solver")
+                continue
             if len(t2) != len(tF) - k or np.abs(t2[:m] - tF[k:k + m]).max() > 1e-9:
                 ctx.violation(f"{solver}.restart", "the run continued from the re-initialised system does not cover the remaining time instants of the uninterrupted run",
                               {**exk, "instants_continued": int(len(t2)), "instants_remaining": int(len(tF) - k), "t_first_continued": float(t2[0]), "t_k": float(tF[k]),
